@@ -163,7 +163,8 @@ func main() {
 	flag.IntVar(&repeat, "repeat", 3, "number of times every rendering is repeated")
 	binds := flag.Float64("binds", 0, "if > 0, boost Bind / Arg producers (share of expression leaves)")
 	boost := flag.String("boost", "", "comma separated producer=factor weight multipliers")
-	mode := flag.String("mode", "mixed", "generator: typed, structured or mixed")
+	mode := flag.String("mode", "mixed", "generator: typed, structured, mixed, or a special mode (c06)")
+	maxLen := flag.Int("maxlen", 3, "c06: exhaustive strings up to this length over the critical alphabet")
 	flag.Parse()
 
 	w := os.Stdout
@@ -174,6 +175,10 @@ func main() {
 		}
 		defer f.Close()
 		w = f
+	}
+	if *mode == "c06" {
+		runC06(w, *seed, *maxLen, *n)
+		return
 	}
 	enc := json.NewEncoder(w)
 	g := gen.New(*seed, pool)
